@@ -284,6 +284,9 @@ func (a pmSnapshot) equal(b pmSnapshot) bool {
 var pmFrameCounts = []uint64{0, 1, 1, 2, 3, 5, 62, 63, 64, 65, 66, 127, 128, 129, 130, 191, 192, 193, 256, 257}
 
 func pmGenRegions(t *rapid.T, maxRegions int, forceBoundary bool) []pmRegion {
+	if !forceBoundary && rapid.IntRange(0, 39).Draw(t, "fragmented") == 0 {
+		return pmGenFragmented(t)
+	}
 	n := rapid.IntRange(1, maxRegions).Draw(t, "nregions")
 	cur := rapid.SampledFrom([]uint64{0, 0, 0x800, 0x1000, 0x9fc00, 0x100000, 0x100000, 1 << 32, 0xfffff000, 1 << 39}).Draw(t, "base")
 	var regs []pmRegion
@@ -324,6 +327,37 @@ func pmGenRegions(t *rapid.T, maxRegions int, forceBoundary bool) []pmRegion {
 		}
 		regs = append(regs, pmRegion{addr, length, typ})
 		cur = addr + length
+	}
+	return regs
+}
+
+// pmGenFragmented draws a fragmented firmware map: dozens to hundreds of small available regions
+// with reserved holes, sub-page scraps and other types between them (a handful of draws; the
+// pattern repeats).
+func pmGenFragmented(t *rapid.T) []pmRegion {
+	n := rapid.SampledFrom([]int{20, 33, 63, 64, 65, 66, 100, 129, 200, 300}).Draw(t, "nfragments")
+	sizes := rapid.SliceOfN(rapid.SampledFrom([]uint64{1, 1, 2, 3, 5, 7, 63, 64, 65}), 3, 6).Draw(t, "fragsizes")
+	holeEvery := rapid.IntRange(1, 5).Draw(t, "holeevery")
+	holeTyp := rapid.SampledFrom([]uint32{2, 3, 4, 5, 0}).Draw(t, "holetyp")
+	scrap := rapid.Bool().Draw(t, "scraps")
+	cur := rapid.SampledFrom([]uint64{0, 0x1000, 0x100000, 1 << 32}).Draw(t, "fragbase")
+	var regs []pmRegion
+	for i := 0; len(regs) < n; i++ {
+		frames := sizes[i%len(sizes)]
+		regs = append(regs, pmRegion{cur, frames * 4096, 1})
+		cur += frames * 4096
+		if i%holeEvery == 0 {
+			regs = append(regs, pmRegion{cur, 4096, holeTyp})
+			cur += 4096
+		}
+		if scrap && i%7 == 3 {
+			// an available entry without a whole page
+			regs = append(regs, pmRegion{cur + 0x800, 0x400, 1})
+			cur += 4096
+		}
+		if i%11 == 10 {
+			cur += 0x100000 // an unreported gap
+		}
 	}
 	return regs
 }
